@@ -325,9 +325,60 @@ class PathRules:
                     rep.ob(rule, b.id, "remove_dir_all: child %s under type %s" % (rmname, want), ok,
                            "dispatched by the child's own metadata" if ok else
                            "child.%s() is not guarded by child.metadata().file_type == %s" % (rmname, want), s.line)
+        n += self.ok_needs_effect(rep, rule)
         return n
 
     # ------------------------------------------------------------------ route selection (R11.2)
+    MUTATORS = ("create_dir", "create_file", "append_file", "remove_file", "remove_dir", "remove_dir_all", "copy_file", "move_file",
+                "move_dir", "copy_dir", "create_dir_all", "set_creation_time", "set_modification_time", "set_access_time", "copy")
+
+    def ok_needs_effect(self, rep, rule):
+        """a mutating path operation reports success only after a mutating call of the backend (or of the path type) succeeded:
+        there is no answer `Ok` that is decided by the arguments alone (same path, empty name, root, ...).  On a read-only
+        backend this is what makes every mutating call fail; on the others it is what makes Ok mean that something happened.
+        (create_dir_all and remove_dir_all have an `Ok` without effect by contract — already there / nothing there — and
+        are decided by their own rules.)"""
+        n = 0
+
+        def has_effect(t):
+            for x in walk(t):
+                if x[0] == "call" and isinstance(x[1], str) and sname(x[1]) in self.MUTATORS:
+                    return True
+                if x[0] == "closure":
+                    return True         # the closure's own returns are judged where it is defined
+            return False
+        for name in ("create_dir", "create_file", "append_file", "remove_file", "remove_dir", "copy_file", "move_file", "copy_dir",
+                     "move_dir", "set_creation_time", "set_modification_time", "set_access_time"):
+            b, cbs = self.bodies(name)
+            if b is None:
+                continue
+            seen_cb = set()
+            for cb in cbs:
+                cases = self.inter.ret_cases(cb)
+                cb = self.inter.code_body(cb)
+                if cb.id in seen_cb:
+                    continue
+                seen_cb.add(cb.id)
+                rty = cb.locals[0]["ty"]
+                if "Result<" not in rty and "Poll<" not in rty:
+                    continue            # a helper closure that does not return the operation's verdict
+                for ct, _, bb in cases:
+                    pol = self.inter.case_polarity(ct)
+                    if pol == "err":
+                        continue
+                    t = norm(ct)
+                    ok = has_effect(t)
+                    if not ok:
+                        for g in self.guards(cb, bb):
+                            if g[0] == "variant" and g[2] == "ok" and has_effect(g[1]):
+                                ok = True
+                    n += 1
+                    rep.ob(rule, b.id, "%s: Ok only after a mutating call succeeded" % name, ok, "" if ok else
+                           "%s can answer %s without any mutating call of the backend having succeeded: the success is decided by "
+                           "the arguments alone (a read-only backend no longer refuses it; a missing source is not reported)"
+                           % (name, fmt(t)[:40]), cb.blocks[bb].term.line)
+        return n
+
     def fast_paths(self, rep, rule):
         w = self.w
         n = 0
@@ -363,6 +414,18 @@ class PathRules:
                 n += 1
                 rep.ob(rule, b.id, "%s: fast path arguments (self.path, destination.path)" % name, o1 and o2,
                        "%s, %s" % (fmt(a1)[:30], fmt(a2)[:30]), s.line)
+        # the backend's two-path operations act inside ONE filesystem: wherever else the path type calls them (a loop of
+        # copy_dir, a helper), the two paths must be known to live on the same instance too
+        for name, b in sorted(self.methods.items()):
+            if name in ("copy_file", "move_file", "move_dir"):
+                continue
+            for cb, s in self.sites(name, lambda s: s.trait == w.trait and s.name in ("copy_file", "move_file", "move_dir")):
+                gs = self.guards(cb, s.bb)
+                pe = any(g[0] == "bool" and g[2] is True and g[1][0] == "call" and g[1][1] == "Arc::ptr_eq" for g in gs)
+                n += 1
+                rep.ob(rule, b.id, "%s: backend %s only on the same filesystem instance" % (name, s.name), pe, "" if pe else
+                       "%s calls the backend's same-filesystem %s without an Arc::ptr_eq test of the two paths' filesystems: across "
+                       "filesystems the source's backend is asked to write a path of its own namespace" % (name, s.name), s.line)
         return n
 
     # ------------------------------------------------------------------ generic routes (R11.3 / R04.4)
